@@ -1,7 +1,7 @@
 """C06 - sample allocation meets the variance budget; runs stop only on stated criteria.
 
 Sub-checks
- alloc     lattice: every (vl, cl) vector of length 1..5 over V = {0, 1e-6, 1e-2, 1, 50} x C = {0.5, 1, 8, 1e3} (quick: length
+ alloc     lattice: every (vl, cl) vector of length 1..5 over V = {0, 1e-16, 1e-6, 1e-2, 1, 50} x C = {0.5, 1, 8, 1e3} (quick: length
            <= 4) and rmse in {1, 0.1, 1e-3}, through the criteria object of GilesConvergenceCriteria:
            N_l non-negative integers; sum_l V_l/N_l (0/0 read as 0) <= rmse^2 - (bias tolerance)^2, the consequence of the
            statement's two clauses. Nothing is read from the source: the bias tolerance is measured from the behaviour of the
@@ -43,7 +43,7 @@ ASSUMPTIONS = C5.ASSUMPTIONS + [
 ]
 CHUNK = 1
 
-V_ALPHA = [0.0, 1e-6, 1e-2, 1.0, 50.0]
+V_ALPHA = [0.0, 1e-16, 1e-6, 1e-2, 1.0, 50.0]  # 1e-16: a positive variance whose optimal size is far below one sample
 C_ALPHA = [0.5, 1.0, 8.0, 1e3]
 RMSES = [1.0, 0.1, 1e-3]
 
